@@ -393,7 +393,7 @@ int SQLITE3::Handle::fetchall(struct sqlite3_stmt * stmt, bloc::Collection ** rs
           decl[i] = bloc::Type::NUMERIC;
           break;
         case SQLITE_TEXT:
-          t.push_back(bloc::Value(new bloc::Literal((const char*) sqlite3_column_text(stmt, i))));
+          t.push_back(bloc::Value(new bloc::Literal((const char*) sqlite3_column_text(stmt, i), (size_t) sqlite3_column_bytes(stmt, i))));
           decl[i] = bloc::Type::LITERAL;
           break;
         case SQLITE_BLOB:
@@ -702,7 +702,7 @@ int SQLITE3::Handle::fetch(bloc::Tuple ** row)
         t.push_back(bloc::Value(bloc::Numeric(sqlite3_column_double(_stmt, i))));
         break;
       case SQLITE_TEXT:
-        t.push_back(bloc::Value(new bloc::Literal((const char*) sqlite3_column_text(_stmt, i))));
+        t.push_back(bloc::Value(new bloc::Literal((const char*) sqlite3_column_text(_stmt, i), (size_t) sqlite3_column_bytes(_stmt, i))));
         break;
       case SQLITE_BLOB:
       {
